@@ -122,7 +122,12 @@ BodiesK == {Bn(">", K, NumA("0")), Bn("=", K, Own("x")), Bn("<", K, Fld(VarR("@A
             Un("not", Bn("implies", Bn(">", K, NumA("0")), Own("p"))),
             Un("not", Un("not", Bn(">", K, NumA("0")))),
             Bn("in", K, SetOf(<<NumA("1")>>)),
-            Bn("and", Bn("and", Own("p"), Bn(">", K, NumA("0"))), Own("q"))}
+            Bn("and", Bn("and", Own("p"), Bn(">", K, NumA("0"))), Own("q")),
+            \* bodies in which every occurrence of the variable can be folded away
+            Bn("and", Own("p"), Bn("implies", Bn(">", K, NumA("0")), Bn(">", K, NumA("0")))),
+            Bn(">", Idx(Own("ys"), NumA("0")), Bn("-", K, K)),
+            Bn("and", Bn("=", Own("y"), NumA("2")), Bn("!=", Bn("+", K, NumA("1")), K)),
+            Bn("or", Own("p"), Bn("and", Bn(">", K, NumA("0")), Un("not", Bn(">", K, NumA("0")))))}
 Quants1 == {Qn(q, "k", d, b) : q \in {"forall", "exists"}, d \in Domains, b \in BodiesK}
 NestBodies == {Qn(q2, "j", Own("ys"), Bn("<", J, K)) : q2 \in {"forall", "exists"}}
              \cup {Qn(q2, "j", Own("ys"), Bn("and", Bn("<", J, K), Own("p"))) : q2 \in {"forall", "exists"}}
